@@ -151,9 +151,19 @@ def run(ctx, report):
     from . import scc_buffer
     report.section("pop-on buffer", scc_buffer.run, ctx, report, "4", ctx.tier == "thorough")
 
+    # the whole reader, end to end, on streams serialised from an abstract screen model
+    from . import scc_e2e_fold
+    report.section("end to end", scc_e2e_fold.run, ctx, report, {
+        "grouping": ("R-E2E", "7", "rows on consecutive screen rows are one caption, a gap starts another"),
+        "text": ("R-E2E", "7", "each line reads as the cells spell it (doubled codes once, extended characters replace "
+                               "their stand-in, back-space deletes)"),
+        "position": ("R-E2E", "7", "each caption sits at the (row, column) of its first row, mapped into the safe area"),
+        "italics": ("R-E2E", "7", "italic nodes are balanced and cover exactly the characters sent while italics were on"),
+        "times": ("R-E2E", "7", "captions split from one load share their times; loads follow each other"),
+    })
     report.not_decided.append(
         "decoder behaviour over command sequences beyond the folded scopes (captions of more than three rows, "
-        "extended-character back-space, back-space, background colours, re-addressing a row that already has text)")
+        "background colours, re-addressing a row that already has text, streams beyond the generated programs)")
     report.assume("reference tables in sa/spec/cea608.py transcribe CEA-608-E (bit layout of preamble address "
                   "codes, basic/special/extended character sets); where published tables differ both "
                   "readings are accepted")
